@@ -318,7 +318,12 @@ Definition cmd_env (mode : sandbox_mode) (uid : str) (net mount : bool) (e : env
 
 (* os/exec: the environment of the started process *)
 Definition dedup (l : env) : env := add [] l.
-Definition child_env (caller : env) (l : env) : env := match l with [] => caller | _ => dedup l end.
+(* Cmd.environ: a nil Env means os.Environ(), plus PWD=<cmd.Dir> when a directory is given (POSIX) *)
+Definition child_env (caller : env) (dir : str) (l : env) : env :=
+  match l with
+  | [] => match dir with [] => caller | _ => set (s "PWD") dir caller end
+  | _ => dedup l
+  end.
 
 (* strings.ReplaceAll(x, from, to), from non-empty *)
 Fixpoint replace_fuel (fuel : nat) (from to x : str) : str :=
@@ -344,9 +349,9 @@ Definition sandbox_process (e : env) : option env :=
                    else Some (map (fun kv => (fst kv, replace_all d SANDBOX_DIR (snd kv))) e)
        end.
 
-(* the environment the action's process gets; for an external tool: the environment of the tool *)
-Definition action_env (mode : sandbox_mode) (uid : str) (net mount : bool) (caller : env) (e : env) : option env :=
-  let ce := child_env caller (cmd_env mode uid net mount e) in
+(* the environment the action's process gets (dir = cmd.Dir); for an external tool: the environment of the tool *)
+Definition action_env (mode : sandbox_mode) (uid : str) (net mount : bool) (caller : env) (dir : str) (e : env) : option env :=
+  let ce := child_env caller dir (cmd_env mode uid net mount e) in
   match mode with SbBuiltin => sandbox_process ce | _ => Some ce end.
 
 (* ---- what is hashed ---- *)
@@ -413,7 +418,7 @@ Inductive case :=
 | CActionEnv (sx : sbx) (cfg : config) (t : target) (tmp : str) (caller : env)
              (mode : sandbox_mode) (uid : str) (net mount : bool) (obs : option env)
 (* process.Executor.ExecWithTimeout on an arbitrary name=value list (duplicates, empty list) *)
-| CExecEnv (mode : sandbox_mode) (uid : str) (net mount : bool) (caller e : env) (obs : option env).
+| CExecEnv (mode : sandbox_mode) (uid : str) (net mount : bool) (caller : env) (dir : str) (e : env) (obs : option env).
 
 Definition opt_env_eqb (m obs : option env) : bool :=
   match m, obs with
@@ -433,6 +438,6 @@ Definition check (c : case) : bool :=
   | CRuleHashEq t c1 c2 same => Bool.eqb (str_eqb (pass_env_stream t c1) (pass_env_stream t c2)) same
   | CConfigHashEq cfg c1 c2 same => Bool.eqb (str_eqb (config_stream cfg c1) (config_stream cfg c2)) same
   | CActionEnv sx cfg t tmp caller mode uid net mount obs =>
-      opt_env_eqb (action_env mode uid net mount caller (build_env_sb sx cfg t tmp caller)) obs
-  | CExecEnv mode uid net mount caller e obs => opt_env_eqb (action_env mode uid net mount caller e) obs
+      opt_env_eqb (action_env mode uid net mount caller tmp (build_env_sb sx cfg t tmp caller)) obs
+  | CExecEnv mode uid net mount caller dir e obs => opt_env_eqb (action_env mode uid net mount caller dir e) obs
   end.
